@@ -2,3 +2,5 @@ import PvModel.Props.C14
 #print axioms Pv.Surface.C14_term_shape
 #print axioms Pv.Surface.C14_clause_shape
 #print axioms Pv.Surface.C14_query_order
+#print axioms Pv.Surface.C14_term
+#print axioms Pv.Surface.C14_clause
